@@ -288,7 +288,7 @@ func randInt(r *rand.Rand) int64 {
 		}
 		return v
 	case 4:
-		return int64(r.Intn(64)) // shift counts
+		return int64(r.Intn(140)) // shift counts, also at and over the width
 	case 5:
 		return int64(r.Int63n(1<<53)) - 1<<52
 	case 6:
